@@ -1133,7 +1133,37 @@ def zero_rules(rep, m):
                 nf, sorted(idx), want, (', field %s is never looked at' % missing) if missing else '', (', field %s is not a value' % extra) if extra else ''),
                 expected=str(want), actual=str(sorted(idx)))
     if n < 3:
-        o.unk('zero-line', None, 'fewer than three record widths (3, 4, 5 fields) are tested')
+        # the other form: one test for every width - `all(<value is zero> for v in fields[2:])`
+        generic = None
+        for s in walk_stmts(body):
+            if isinstance(s, ast.If) and any(isinstance(y, ast.Continue) for y in s.body):
+                for c in ast.walk(s.test):
+                    if isinstance(c, ast.Call) and getattr(c.func, 'id', '') in ('all', 'any') and c.args and isinstance(c.args[0], (ast.GeneratorExp, ast.ListComp)):
+                        generic = (s, c)
+        if generic is not None:
+            s, c = generic
+            gen = c.args[0]
+            it = gen.generators[0].iter
+            tol = [x for x in ast.walk(gen.elt) if (isinstance(x, ast.Call) and (getattr(x.func, 'attr', '') or getattr(x.func, 'id', '')) in ('isclose', 'allclose', 'round', 'around'))
+                   or (isinstance(x, ast.Compare) and len(x.ops) == 1 and isinstance(x.ops[0], (ast.Lt, ast.LtE)) and any(
+                       isinstance(y, ast.Call) and getattr(y.func, 'id', '') == 'abs' for y in ast.walk(x.left)))]
+            lo = aff(it.slice.lower) if isinstance(it, ast.Subscript) and isinstance(it.slice, ast.Slice) and it.slice.lower is not None else None
+            if c.func.id == 'any':
+                o.bad('zero-line', s, 'a record is dropped when ANY of its values is zero: non-zero covariances are lost')
+            elif tol:
+                o.bad('zero-line', s, 'a record is dropped when its values are zero WITHIN A TOLERANCE (`%s`): a line holding small non-zero covariances (1e-9 and below) is removed, '
+                      'the property keeps every line that is not all-zero' % stmt_text(tol[0])[:50], expected='an exact comparison with zero', actual=stmt_text(gen.elt)[:80])
+            elif lo is None or set(lo) - {''} or lo.get('', 0) != 2 or it.slice.upper is not None:
+                o.bad('zero-line', s, 'the zero test looks at `%s`; the value fields of a matrix record are fields 2.. (after the two indices)' % stmt_text(it)[:40],
+                      expected='fields[2:]', actual=stmt_text(it)[:40])
+            else:
+                exact = [x for x in ast.walk(gen.elt) if isinstance(x, ast.Compare) and len(x.ops) == 1 and isinstance(x.ops[0], ast.Eq)]
+                if exact:
+                    o.ok('zero-line', s, 'a record is dropped iff every value field (2..) compares equal to zero')
+                else:
+                    o.unk('zero-line', s, 'zero test of the value fields not recognised: %s' % stmt_text(gen.elt)[:60])
+        else:
+            o.unk('zero-line', None, 'fewer than three record widths (3, 4, 5 fields) are tested')
 
 
 # ------------------------------------------------------------------------------------------------ read_sinex_matrix fill and strides
